@@ -79,6 +79,12 @@ class Rig(object):
             a.short_reads = short_reads
             if prebuffer:
                 a.rx.rcvbuf += prebuffer
+            self.extra_socks = []
+
+            def on_extra(srv, addr):
+                self.extra_socks.append(srv)
+                self.connects += 1
+            net.listen(PEER_ADDR, on_extra, auto_ab=True, hold_ba=True)
             self.provider = dulprovider.DULServiceProvider(set(store_in_file), get_file_cb, a,
                                                            max_pdu_length)
         else:
